@@ -196,7 +196,7 @@ static void prop_solve(Tape &t, Ctx &c) {
     int cec = static_cast<int>(t.u(0, 2));
     ptrdiff_t ce = cec == 0 ? 12 : cec == 1 ? 4 : 3000;
     double tol = t.b() ? 1e-8 : 1e-6;
-    const size_t maxiter = 200;
+    const size_t maxiter = 1000; // CG with the (not exactly symmetric) block-valued cycle can need more than 200 steps on n=250 (seen once in 1e5 cases)
     c.desc << "block solve b=" << B << " kind=" << bc.kind << " " << bc.family << " nb=" << bc.nb << " " << describe(A) << " incomplete=" << bc.incomplete << "/" << bc.blocks
            << " contrast=" << bc.contrast << " rhs=" << fk << " coarse_enough=" << ce << " tol=" << tol << " A=" << dump_small(A, 8);
     c.nontrivial = bc.incomplete > 0 && bc.nb >= 2;
